@@ -8,11 +8,13 @@
 (* check replays the same script against the real key keeper and the       *)
 (* scripted host and compares the projections poll by poll.                *)
 (* Rows: {"e":"run", doc, named, latched, issued, dir, final, damaged}      *)
-(*       {"e":"reconf", doc} {"e":"rotate", named} {"e":"crash"}            *)
+(*       {"e":"reconf", doc} {"e":"rotate", named} {"e":"relatch", g}       *)
+(*       {"e":"crash"}                                                      *)
 (*       {"e":"poll", status, acquire, g, attest, notify, mid: {at, doc}}   *)
 (*       {"e":"end"}                                                        *)
 (***************************************************************************)
 EXTENDS KeyKeeper, Json, IOUtils
+ZeroInc(g) == 0
 GModeOf(r) == "audit"
 
 Script == ndJsonDeserialize(IOEnv.SCRIPT)
@@ -48,6 +50,12 @@ GRotate ==
   /\ i <= Len(Script) /\ Row.e = "rotate" /\ pc = "GetStatus"
   /\ host' = [host EXCEPT !.named = Row.named, !.latched = "none"]
   /\ gh' = [gh EXCEPT !.clean = FALSE] /\ Did("Rotate", "-", "none")
+  /\ Adv /\ UNCHANGED <<fs, pc, loc, mem, policy, run, poll, midDone>>
+
+GRelatch ==
+  /\ i <= Len(Script) /\ Row.e = "relatch" /\ pc = "GetStatus"
+  /\ host' = [host EXCEPT !.named = Row.g, !.latched = Row.g]
+  /\ gh' = [gh EXCEPT !.clean = FALSE] /\ Did("Relatch", "-", Row.g)
   /\ Adv /\ UNCHANGED <<fs, pc, loc, mem, policy, run, poll, midDone>>
 
 GCrash ==
@@ -87,7 +95,7 @@ GEnd == /\ i <= Len(Script) /\ Row.e = "end" /\ pc = "GetStatus"
         /\ PrintT(<<"GENDONE", i>>) /\ pc' = "Idle" /\ Adv
         /\ UNCHANGED <<host, fs, loc, mem, policy, act, gh, run, poll, midDone>>
 
-GNext == GRun \/ GReconf \/ GRotate \/ GCrash \/ GAgent \/ GEnd
+GNext == GRun \/ GReconf \/ GRotate \/ GRelatch \/ GCrash \/ GAgent \/ GEnd
 GSpec == GInit /\ [][GNext]_gvars
 
 =============================================================================
